@@ -23,6 +23,9 @@ RULE = ("Every synthetic Stack tree of the C18 space (all context-field combinat
 ASSUMPTIONS = ["child task stacks (Stack objects among Context.children) are not part of the flat projection (only child contexts are)"]
 
 
+RULE += ' Round 9: the same source under three file names, summarised in every order of length 2 and 3.'
+
+
 def legs(tier):
     from vlib.runner import Leg
     n = 2 if tier == "quick" else 6
